@@ -140,6 +140,13 @@ impl Api {
         }
     }
     /// another thread keeps a lookup guard (ValueRef) on key k alive for `ms` milliseconds; returns once it is held
+    /// get_mut: the id of the value handed out (the guard is dropped at once)
+    fn get_mut_id(&self, k: u64) -> Option<u64> {
+        match &self.0 {
+            AnyCache::Sync(c) => c.get_mut(&k).map(|r| r.value().id),
+            AnyCache::Async(c) => bo(c.get_mut(&k)).map(|r| r.value().id),
+        }
+    }
     fn get_ttl(&self, k: u64) -> bool {
         match &self.0 {
             AnyCache::Sync(c) => c.get_ttl(&k).is_some(),
@@ -225,10 +232,38 @@ fn instance(tx: mpsc::Sender<Value>, seed: u64, flavor: String, exec: String, ti
         let mut what = "op";
         let _ = tx.send(json!({"ev":"Op","completed":true,"begin":true}));
         if r < 30 {
+            // sometimes another thread keeps a lookup guard on a resident key meanwhile: an eviction (or a sweep) that needs
+            // that key's shard has to wait for the guard, not skip the removal
+            let mut holder = None;
+            if !tiny && rng.gen_bool(0.3) {
+                let p = post(&api.0);
+                if let Some(e) = p["store"].as_array().unwrap().first() {
+                    let idx = e["i"].as_u64().unwrap();
+                    if let Some(hk) = crate::cache::KEYTAB.iter().position(|kt| kt.0 == idx) {
+                        holder = api.hold_ref(hk as u64, 30);
+                        if holder.is_some() {
+                            lookups += 1;
+                        }
+                    }
+                }
+            }
             let v = next_val;
             next_val += 1;
             if api.insert(k, v, rng.gen_range(1..4), 0) {
                 accepted.push(v);
+            }
+            if holder.is_some() {
+                // more newcomers while the guard is held: victims are chosen among the residents
+                for _ in 0..3 {
+                    let v = next_val;
+                    next_val += 1;
+                    if api.insert(keys[rng.gen_range(0..keys.len())], v, rng.gen_range(2..4), 0) {
+                        accepted.push(v);
+                    }
+                }
+            }
+            if let Some(h) = holder {
+                let _ = h.join();
             }
             what = "insert";
         } else if r < 60 {
@@ -616,6 +651,80 @@ fn par_instance(tx: mpsc::Sender<Value>, seed: u64, flavor: String, exec: String
         // every lookup is still in the lookup ring or was handed over in a batch that is counted as kept or as dropped
         let _ = tx.send(json!({"ev":"Hammer","lookups":readers * per,"found":found,"hit":d("hit"),"miss":d("miss"),
             "kept":d("keepGets"),"dropped":d("dropGets"),"ring_before":ring0,"ring_after":p1["ring"]}));
+    }
+    // (2b) a remover and an inserter per key, in short bursts; after each burst, at quiescence, what is resident is what is
+    // charged (Agree of Cache.tla): remove's two halves (store at once, charge through the Delete marker) racing inserts
+    let _ = tx.send(json!({"ev":"Op","completed":true,"begin":true,"what":"parallel remove / insert bursts"}));
+    for burst in 0..40u64 {
+        let hs: Vec<_> = (0..6u64)
+            .map(|t| {
+                let api = api.clone();
+                let base = 2_000_000 + burst * 10_000 + t * 1_000;
+                std::thread::Builder::new()
+                    .name(format!("par-c{}", t))
+                    .spawn(move || {
+                        let k = 5 + t / 2; // keys 5, 6, 7: one remover and one inserter each
+                        for i in 0..150u64 {
+                            if t % 2 == 0 {
+                                api.insert(k, base + i, 1, 0);
+                            } else {
+                                api.remove(k);
+                            }
+                        }
+                    })
+                    .expect("spawn")
+            })
+            .collect();
+        for h in hs {
+            let _ = h.join();
+        }
+        api.wait();
+        let p = post(&api.0);
+        let _ = tx.send(json!({"ev":"Quiesce","what":"after a burst of parallel removes and inserts","store":p["store"],"costs":p["costs"],"used":p["used"],"len":p["len"]}));
+    }
+    // (2c) two keys that share an index (KEYTAB 0 and 1): one thread alternates them in the store, others call get_mut on
+    // each: a lookup of k never hands out a value written under the other key (ResidentOwned of Cache.tla)
+    let _ = tx.send(json!({"ev":"Op","completed":true,"begin":true,"what":"parallel get_mut on colliding keys"}));
+    {
+        let stopf = Arc::new(AtomicBool::new(false));
+        let foreign = Arc::new(AtomicUsize::new(0));
+        let looked = Arc::new(AtomicUsize::new(0));
+        // values of key 0 are even, values of key 1 odd
+        let lookers: Vec<_> = (0..4u64)
+            .map(|t| {
+                let (api, stopf, foreign, looked) = (api.clone(), stopf.clone(), foreign.clone(), looked.clone());
+                std::thread::Builder::new()
+                    .name(format!("par-g{}", t))
+                    .spawn(move || {
+                        let k = t % 2;
+                        while !stopf.load(Ordering::SeqCst) {
+                            if let Some(id) = api.get_mut_id(k) {
+                                looked.fetch_add(1, Ordering::Relaxed);
+                                if id % 2 != k {
+                                    foreign.fetch_add(1, Ordering::SeqCst);
+                                }
+                            }
+                        }
+                    })
+                    .expect("spawn")
+            })
+            .collect();
+        let mut v = 3_000_000u64;
+        for _ in 0..3000 {
+            v += 2;
+            api.insert(0, v, 1, 0);
+            api.wait();
+            api.remove(0);
+            api.insert(1, v + 1, 1, 0);
+            api.wait();
+            api.remove(1);
+        }
+        stopf.store(true, Ordering::SeqCst);
+        for h in lookers {
+            let _ = h.join();
+        }
+        api.wait();
+        let _ = tx.send(json!({"ev":"Foreign","foreign":foreign.load(Ordering::SeqCst),"lookups":looked.load(Ordering::SeqCst)}));
     }
     // (3) close() under load
     let _ = tx.send(json!({"ev":"Op","completed":true,"begin":true,"what":"close under load"}));
